@@ -29,7 +29,7 @@ IMPORTANT: {len(prev)} other engineers have already produced changes for this pr
     for i, (s, n) in enumerate(prev):
         txt += f' {i+1}. "{s}" (trigger: {n})\n'
     txt += f"""
-Assume the harness you are up against is a good randomized property-based test suite for exactly this statement: it evaluates every clause on thousands of random inputs with exact rational arithmetic AND with f32 and f64 inputs that include every magnitude at which the statement's own quantities are finite (normal or subnormal) and the unchanged library still satisfies the statement, values within a few ulps of every obvious threshold, signed zeros, NaN and infinities where the statement is about them, exactly degenerate and exactly structured configurations (zeros in the same position of both operands, axis-aligned vectors, basis quaternions, identity-like and nearly symmetric matrices, nearly-unit vectors and quaternions), aliased operands, all receiver/operand forms including in-place forms, provided trait methods, reference forms and the write path, lists of up to several thousand items fed from iterators of every kind, integers over their whole range with overflow outcomes compared, tolerances derived from the conditioning of each measured quantity rather than round numbers, bit-level comparisons where the statement says 'exactly', metamorphic checks (power-of-two scale covariance up to the top binade and down to subnormal determinants and cofactors, in-range idempotence), two serde formats, every parameter tuple the documented preconditions allow (not only the conventional ones), iterators that are not fused, values obtained by composing thousands of operations, pairs of values that are approximately equal for different reasons in different components, searched-for rounding patterns (the worst of several hundred nearby inputs), NaN / signed zeros / infinities / subnormals in every slot of every view and conversion compared as bit patterns, every scalar form of every compound type over the whole integer range, serde's deserialize_in_place as well as deserialize, power-of-two covariance in every linear argument from the top binade to the last subnormal units, rounding-level (tens of ulps) tolerances wherever the quantity is well conditioned, and it compares against an independent reference implementation. Your change should be one that such a suite could still plausibly miss. Think about: (a) entry points or trait impls that the statement covers only implicitly (blanket/default trait methods, `impl<'a> ... for &'a T` forms, `From`/`Into` conversions, `Sum`/`Product` over references, `*_assign`/`*_self` in-place variants, deprecated aliases, swizzle/mint/serde feature code, `Index`/`AsRef`/`AsMut` views); (b) behaviour that depends on the *combination* of two arguments or two calls (state carried in a value that is only wrong after a particular sequence; a result that is right in value but wrong in sign of zero, wrong in a component that only matters for a later call, or wrong only when two inputs are equal/aliased/ordered a particular way); (c) one specific dimension x scalar-type x operation cell of a macro-generated family; (d) inputs that are valid but that a generator built around "typical" values would construct rarely: exact integers in float types, values that are exactly representable fractions, angles that are exact multiples of a quarter turn, axes aligned with a coordinate axis, matrices with a zero row/column or repeated entries, points at the origin, t = 0 or 1 exactly, lists of length 1. (e) a provided/default trait method that gets an explicit override which no longer mirrors the method it is derived from (approx's `*_ne`, `Zero::is_zero`/`set_zero`, `One::is_one`/`set_one`, `MetricSpace::distance`, `InnerSpace::magnitude`/`normalize_to`, `Transform::concat_self`/`inverse_transform_vector`, `Rotation::rotate_point`, `EuclideanSpace::midpoint`/`centroid`, `VectorSpace::lerp`, `SquareMatrix::trace`/`is_*`, iterator folds); (f) behaviour on overflow / division by zero / NaN that silently changes from the primitive operation's behaviour. Pick a clause of the property statement that none of the earlier changes touches if you can.
+Assume the harness you are up against is a good randomized property-based test suite for exactly this statement: it evaluates every clause on thousands of random inputs with exact rational arithmetic AND with f32 and f64 inputs that include every magnitude at which the statement's own quantities are finite (normal or subnormal) and the unchanged library still satisfies the statement, values within a few ulps of every obvious threshold, signed zeros, NaN and infinities where the statement is about them, exactly degenerate and exactly structured configurations (zeros in the same position of both operands, axis-aligned vectors, basis quaternions, identity-like and nearly symmetric matrices, nearly-unit vectors and quaternions), aliased operands, all receiver/operand forms including in-place forms, provided trait methods, reference forms and the write path, lists of up to several thousand items fed from iterators of every kind, integers over their whole range with overflow outcomes compared, tolerances derived from the conditioning of each measured quantity rather than round numbers, bit-level comparisons where the statement says 'exactly', metamorphic checks (power-of-two scale covariance up to the top binade and down to subnormal determinants and cofactors, in-range idempotence), two serde formats, every parameter tuple the documented preconditions allow (not only the conventional ones), iterators that are not fused, values obtained by composing thousands of operations, pairs of values that are approximately equal for different reasons in different components, searched-for rounding patterns (the worst of several hundred nearby inputs), NaN / signed zeros / infinities / subnormals in every slot of every view and conversion compared as bit patterns, every scalar form of every compound type over the whole integer range, serde's deserialize_in_place as well as deserialize, power-of-two covariance in every linear argument from the top binade to the last subnormal units, rounding-level (tens of ulps) tolerances wherever the quantity is well conditioned, the library compiled with debug assertions and overflow checks on, every provided trait method (set_zero, set_one, is_one, the *_ne relations, iterator folds fed from unsized / non-fused / chained iterators) exercised by the check of every property whose statement names the operation, NaN and infinite parameters wherever a statement lists what must be rejected, structurally singular matrices wherever a statement mentions an inverse, and it compares against an independent reference implementation. Your change should be one that such a suite could still plausibly miss. Think about: (a) entry points or trait impls that the statement covers only implicitly (blanket/default trait methods, `impl<'a> ... for &'a T` forms, `From`/`Into` conversions, `Sum`/`Product` over references, `*_assign`/`*_self` in-place variants, deprecated aliases, swizzle/mint/serde feature code, `Index`/`AsRef`/`AsMut` views); (b) behaviour that depends on the *combination* of two arguments or two calls (state carried in a value that is only wrong after a particular sequence; a result that is right in value but wrong in sign of zero, wrong in a component that only matters for a later call, or wrong only when two inputs are equal/aliased/ordered a particular way); (c) one specific dimension x scalar-type x operation cell of a macro-generated family; (d) inputs that are valid but that a generator built around "typical" values would construct rarely: exact integers in float types, values that are exactly representable fractions, angles that are exact multiples of a quarter turn, axes aligned with a coordinate axis, matrices with a zero row/column or repeated entries, points at the origin, t = 0 or 1 exactly, lists of length 1. (e) a provided/default trait method that gets an explicit override which no longer mirrors the method it is derived from (approx's `*_ne`, `Zero::is_zero`/`set_zero`, `One::is_one`/`set_one`, `MetricSpace::distance`, `InnerSpace::magnitude`/`normalize_to`, `Transform::concat_self`/`inverse_transform_vector`, `Rotation::rotate_point`, `EuclideanSpace::midpoint`/`centroid`, `VectorSpace::lerp`, `SquareMatrix::trace`/`is_*`, iterator folds); (f) behaviour on overflow / division by zero / NaN that silently changes from the primitive operation's behaviour. Pick a clause of the property statement that none of the earlier changes touches if you can.
 
 NEVER use `git stash` (the stash is shared with other worktrees): to revert use `git apply -R SEED/patch.diff` or `git checkout -- src build.rs`, to re-apply use `git apply SEED/patch.diff`.
 
